@@ -378,6 +378,8 @@ pub fn abandoned_member_signature(recs: &[Rec], node_of_id: &dyn Fn(u64) -> Opti
     // P -> (heads that were on the stack when P last completed, position of that End)
     let mut pending: std::collections::BTreeMap<u8, (BTreeSet<u8>, usize)> = Default::default();
     let mut iterated: BTreeSet<u8> = BTreeSet::new();
+    // node -> positions of its WillIterateCycle events
+    let mut iter_at: std::collections::BTreeMap<u8, Vec<usize>> = Default::default();
     // node -> positions of its Start records
     let mut starts: std::collections::BTreeMap<u8, Vec<usize>> = Default::default();
     for (i, r) in recs.iter().enumerate() {
@@ -400,7 +402,13 @@ pub fn abandoned_member_signature(recs: &[Rec], node_of_id: &dyn Fn(u64) -> Opti
                     }
                 }
             }
-            Rec::Ev(_, Ev::WillIterate(dk, _)) | Rec::Ev(_, Ev::DidFinalize(dk, _)) => {
+            Rec::Ev(_, Ev::WillIterate(dk, _)) => {
+                if let Some(n) = node_of_id(dk.id) {
+                    iterated.insert(n);
+                    iter_at.entry(n).or_default().push(i);
+                }
+            }
+            Rec::Ev(_, Ev::DidFinalize(dk, _)) => {
                 if let Some(n) = node_of_id(dk.id) {
                     iterated.insert(n);
                 }
@@ -411,10 +419,14 @@ pub fn abandoned_member_signature(recs: &[Rec], node_of_id: &dyn Fn(u64) -> Opti
     pending.iter().any(|(p, (hs, at))| {
         hs.iter().any(|h| {
             // (i) the head completed without being iterated or finalized as a cycle head, or
-            // (ii) the head started again after P's last execution and P did not run in it
+            // (ii) the head started again after P's last execution, P did not run in it, and the
+            //      head was not iterated after P's last execution: its final iteration stamp is
+            //      still the one P recorded (0). A head that *was* iterated afterwards gets a
+            //      higher stamp on the unmodified tree and P's memo is rejected.
             let restarted = starts.get(h).map(|v| v.iter().any(|s| s > at)).unwrap_or(false);
             let p_ran_after = starts.get(p).map(|v| v.iter().any(|s| s > at)).unwrap_or(false);
-            !iterated.contains(h) || (restarted && !p_ran_after)
+            let iterated_after = iter_at.get(h).map(|v| v.iter().any(|s| s > at)).unwrap_or(false);
+            !iterated.contains(h) || (restarted && !p_ran_after && !iterated_after)
         })
     })
 }
